@@ -12,7 +12,12 @@ func (rt *runtime) cmplEvaluateNodeProgram(node *nodeProgram, eval bool) Value {
 	rt.cmplFunctionDeclaration(node.functionList)
 	rt.cmplVariableDeclaration(node.varList)
 	rt.scope.frame.file = node.file
-	return rt.cmplEvaluateNodeStatementList(node.body)
+	result := rt.cmplEvaluateNodeStatementList(node.body)
+	if result.kind == valueEmpty {
+		// A program that produces no value completes with undefined.
+		return Value{}
+	}
+	return result
 }
 
 func (rt *runtime) cmplCallNodeFunction(function *object, stash *fnStash, node *nodeFunctionLiteral, argumentList []Value) Value {
